@@ -34,16 +34,20 @@ static int do_init(){
     delete[]ei;delete[]ej;delete[]c;delete[]e;delete[]su;delete[]st;delete[]sf;delete[]ds;delete[]x;delete[]v;delete[]k;delete[]D;delete[]ts; return r;
   }
 }
-int main(int argc,char**argv){
-  f.open(argv[1]); f>>S.kind;
+static void read_block(){
+  f>>S.kind;
   if(S.kind=="grid"){ for(int i=0;i<6;i++) f>>S.a[i]; S.ns=S.a[3]; S.nc=S.a[0]*S.a[1]*S.a[2];
     S.state=rdd(); S.chstt=rdi(); S.env=rdi(); S.vol1=rd1(); S.k=rdd(); S.sub=rdi(); S.sto=rdi(); S.D=rdd(); f>>S.bcx>>S.bcy>>S.bcz; }
   else { for(int i=0;i<4;i++) f>>S.a[i]; f>>S.ne_edges; S.ns=S.a[1]; S.nc=S.a[0];
     S.ei=rdi(); S.ej=rdi(); S.esfc=rdd(); S.edst=rdd(); S.state=rdd(); S.chstt=rdi(); S.env=rdi(); S.vol=rdd(); S.k=rdd(); S.sub=rdi(); S.sto=rdi(); S.D=rdd(); }
   S.ts=rdd(); f>>S.policy; S.itv=rd1(); S.tmax=rd1(); S.dt=rd1(); f>>S.seed>>S.isp>>S.option;
+}
+int main(int argc,char**argv){
+  f.open(argv[1]); read_block();
   std::string c;
   while(f>>c){
-    if(c=="init") printf("init %d\n",do_init());
+    if(c=="next") read_block();   // a different script follows (used with a later "init")
+    else if(c=="init") printf("init %d\n",do_init());
     else if(c=="iterate") printf("iterate %d\n",engineexport_iterate());
     else if(c=="iterate_n"){int n; f>>n; printf("iterate_n %d\n",engineexport_iterate_n(n));}
     else if(c=="run"){int n; f>>n; printf("run %d\n",engineexport_run(n));}
@@ -89,6 +93,21 @@ def _fmt_d(x):
 
 
 def scenario_text(kind, named, calls):
+    """calls: strings, or ("next", kind2, named2) to switch to another script before a later "init"."""
+    t = [_block(kind, named)]
+    line = []
+    for c in calls:
+        if isinstance(c, tuple):
+            t.append(" ".join(line) + " next")
+            line = []
+            t.append(_block(c[1], c[2]))
+        else:
+            line.append(c)
+    t.append(" ".join(line))
+    return "\n".join(t) + "\n"
+
+
+def _block(kind, named):
     n = named
     t = []
 
@@ -106,14 +125,13 @@ def scenario_text(kind, named, calls):
         t += [arr_i(n["edge_i"]), arr_i(n["edge_j"]), arr_d(n["edge_sfc"]), arr_d(n["edge_dst"]), arr_d(n["state"]), arr_i(n["chstt"]), arr_i(n["env"]),
               arr_d(n["vol"]), arr_d(n["k"]), arr_i(n["sub"]), arr_i(n["sto"]), arr_d(n["D"])]
     t += [arr_d(n["t_sample"]), n["policy"], _fmt_d(n["interval"]), _fmt_d(n["t_max"]), _fmt_d(n["dt"]), "%d %s %s" % (int(n["seed"]), n["isp"], n["option"])]
-    t.append(" ".join(calls))
-    return "\n".join(t) + "\n"
+    return "\n".join(t)
 
 
 def run_scenario(kind, named, calls, timeout_s=20):
     """Returns dict(status='ok'|'error'|'hang', report=..., stdout=...)."""
     drv = build_driver()
-    path = os.path.join(scratch(), "scn_%d.txt" % (abs(hash((kind, repr(sorted(named.items(), key=str)), tuple(calls)))) % 10 ** 9))
+    path = os.path.join(scratch(), "scn_%d_%d.txt" % (os.getpid(), abs(hash((kind, repr(sorted(named.items(), key=str)), repr(calls)))) % 10 ** 9))
     with open(path, "w") as fh:
         fh.write(scenario_text(kind, named, calls))
     env = dict(os.environ, ASAN_OPTIONS="detect_leaks=0:abort_on_error=0", UBSAN_OPTIONS="print_stacktrace=1")
